@@ -106,8 +106,12 @@ CHECKS = {
         ref='DESIGN.md §7 C12'),
     'C17': dict(
         technique='exception-class monitor at the API boundary over a harness support matrix: supported + well-formed '
-                  '=> every call returns; unsupported => RTAMTException by the first evaluation',
-        text='Exploration over the whole operator alphabet x 6 monitor configurations x degenerate data shapes.',
+                  '=> every call returns; unsupported => RTAMTException by the first evaluation; logical work monitor '
+                  '(rtamt function bodies entered, counted with sys.monitoring) on wide specifications',
+        text='Exploration over the whole operator alphabet x 6 monitor configurations x degenerate data shapes, plus '
+             'enumerated wide (14-16 operands / levels: work bounded by 300 function entries per syntax node) and deep '
+             '(190-320 operands / levels) specifications. RecursionError on a specification of 150 or more levels is the '
+             'open finding D-recursion-depth (KNOWN-FINDING); anything else is a VIOLATION.',
         note='Trusted base: the support matrix in props/c17.py (transcribed from the statement).',
         ref='DESIGN.md §7 C17'),
     'C19': dict(
